@@ -14,7 +14,10 @@ SINGLE = [("x", "x"), ("X", "X"), ("2x", "x"), ("dw", "dw"), ("d2w", "dw"), ("2d
 SESSION = ["s!<esc>", "SNEW<esc>", "C.<esc>", "cwX<esc>", "ciwé<esc>", "ifoo<esc>", "aé<esc>", "Ix<esc>", "A!<esc>", "onew<esc>", "Oup<esc>", "Rab<esc>", "iab<BS>c<esc>",
            "ia<left>b<esc>", "cc!<esc>", "ct.Q<esc>", "o<esc>", "i<esc>", "a<CR>b<esc>", "cawZ<esc>", "c$end<esc>", "I<esc>", "ia<right>b<esc>", "Aa<BS><BS>b<esc>",
            "ix<del>y<esc>", "R日本<esc>", "cbY<esc>", "ceE<esc>", "a q <esc>"]
-BETWEEN = ["w", "j", "k", "l", "h", "b", "e", "$", "0", "yw", "yiw", "yy", "fa", "/o<CR>", "n", "G", "gg", "99l", "zz", "\"byw", ";", "%"]
+# motions, yanks, searches, and commands that fail or are given up: an operator whose motion finds nothing
+# (Þ occurs in no generated text), a selection left with <esc>
+BETWEEN = ["w", "j", "k", "l", "h", "b", "e", "$", "0", "yw", "yiw", "yy", "fa", "/o<CR>", "n", "G", "gg", "99l", "zz", "\"byw", ";", "%",
+           "dfÞ", "ctÞ", "g~fÞ", "vl<esc>", "V<esc>"]
 
 
 def parse_cmd(s):
@@ -68,6 +71,14 @@ def fin(x):
 def st(step):
     s = step["post"]
     return {"buf": s["buf"], "cur": s["cur"]["value"], "regs": s["regs"]}
+
+
+def x_failed(step):
+    """the first command of the step reached the editor with an operator and a motion that evaluated to Null"""
+    for t in step["trace"]:
+        if t["k"] == "lb":
+            return t.get("verb") is not None and "motion=Some" in t.get("cmd", "") and t.get("mk") == "Null"
+    return False
 
 
 def first_kind(step):
@@ -173,6 +184,11 @@ def run(tier, seed, replay=None):
         if c["session"] and c["x"][0] in "cCS" and x_kind != "change":
             R.count("x_abandoned_where_first_typed")
             continue
+        if x_failed(xa["steps"][1 + npre]):
+            # X did nothing where it was first typed (its motion failed): it is a failed command, not the change
+            # the property speaks of, and `.` rightly does not repeat it
+            R.count("x_failed_where_first_typed")
+            continue
         if x_kind == "change":
             gone = next((d for d in range(c["dots"]) if first_kind(xb["steps"][first_dot + d]) != "change"), None)
             if gone is not None:
@@ -210,7 +226,7 @@ def run(tier, seed, replay=None):
             pass
         # commands in between must not be repeatable (else '.' legitimately repeats them)
         between_cmds = [x for k in range(len(c["between"])) for x in lb_cmds(xa["steps"][1 + npre + 1 + k])]
-        if any(x and x["repeatable"] for x in between_cmds):
+        if any(x and x["repeatable"] and "Þ" not in (x.get("motion") or "") for x in between_cmds):
             R.count("between_has_repeatable")
             continue
         rep = build_rep(x_cmds)
